@@ -1532,3 +1532,36 @@ def rt_lateattr(req):
 
 
 RT['lateattr'] = rt_lateattr
+
+
+_D39_SRC = '''%s
+class K:
+    def __init__(self, a: int, b: str = 'x') -> None: pass
+class L:
+    def __call__(self, a: int) -> int: return a
+def f(a: int) -> int: return a
+'''
+
+
+def rt_class_annotations(req):
+    """deterministic probe (finding D39): signatures retrieved for classes and callable instances carry no upgraded
+    annotations, so evaluated() loses the annotations that sigtools.signature itself reports"""
+    from . import progs
+    problems = []
+    for future in ('', 'from __future__ import annotations'):
+        mod, fname = progs.load_module(_D39_SRC % future)
+        try:
+            with warnings.catch_warnings():
+                warnings.simplefilter('ignore')
+                for name, obj, want in (('class K', mod.K, "(a: int, b: str = 'x') -> None"), ('instance L()', mod.L(), '(a: int) -> int'),
+                                        ('function f', mod.f, '(a: int) -> int')):
+                    got = str(sigtools.signature(obj).evaluated())
+                    if got != want:
+                        problems.append('class-annotations-lost: sigtools.signature(%s).evaluated() = %s, the annotations denote %s (%s)' % (
+                            name, got, want, future or 'eager module'))
+        finally:
+            progs.unload(fname)
+    return ('ok', tuple(problems[:1]), 'probed')
+
+
+RT['class_annotations'] = rt_class_annotations
